@@ -149,6 +149,10 @@ def check_fn(ex, shape, thorough):
                     raise Bad('a published parameter set holds two equal members')
     # --- substitution
     sym_i = b.symbolic_index
+    # cache history: the parameters are built with the item cache as the sentence left it, or
+    # after its eviction (equal items are then distinct objects)
+    if ex.pick(2, 'evicted'):
+        lexsym.reset_cache()
     pnew = (Constant, Variable)[ex.pick(2, 'newkind')](ex.int('new_i') if sym_i else 0, ex.int('new_s'))
     pold = (Constant, Variable)[ex.pick(2, 'oldkind')](ex.int('old_i') if sym_i else 0, ex.int('old_s'))
     r = s.substitute(pnew, pold)
